@@ -3,7 +3,8 @@
    quote_str, *_value_str, value_bytes, quote_name(_seq), param_str, mod_symbol, like_* are re-translated from /repo on
    every run (Gen/C06Quote.v); lex_std / lex_ident / like_match / lex_blob are the receiving side (Model/C06Lex.v). *)
 Require Import PonyV.Base.PyBase PonyV.Model.C06Str PonyV.Model.C06Lex PonyV.Model.C06Params PonyV.Gen.C06Quote
-               PonyV.Model.C06Stmt PonyV.Proofs.C06StrLemmas PonyV.Proofs.C06Proofs.
+               PonyV.Model.C06Stmt PonyV.Proofs.C06StrLemmas PonyV.Proofs.C06Proofs
+               PonyV.Gen.C06Pin PonyV.Model.C06Pin PonyV.Proofs.C06PinProofs.
 
 (* (1) a standard-SQL lexer reads back exactly s from the literal Pony writes, nothing is left after the closing quote
    (qmark / numeric / named: the statement text goes to the server as is) *)
@@ -135,6 +136,20 @@ Print Assumptions C06_bytes.
 Theorem C06_mod_symbol : forall st, server_text st (mod_symbol st) = Some [32; 37; 32].
 Proof. exact mod_symbol_server. Qed.
 Print Assumptions C06_mod_symbol.
+
+(* re-execution: a string index / slice bound (and a getattr name) taken from a Python variable is rendered inline as a
+   literal.  For EVERY history of runs of the same query code object with changing values, the literal in the statement of
+   each run is the one a fresh translation renders for the value supplied for THAT run -- for an integer bound: that integer.
+   (getitem_miss / getattr_miss are the cache-miss paths translated from source; run models Query._get_translator.) *)
+Theorem C06_rerun_getitem : forall is_start h,
+  run (getitem_miss is_start) tempty h = map (fun v => fst (getitem_miss is_start v)) h
+  /\ forall x, fst (getitem_miss is_start (Some x)) = x.
+Proof. exact rerun_getitem. Qed.
+Print Assumptions C06_rerun_getitem.
+
+Theorem C06_rerun_getattr : forall (h : list Z), run getattr_as_miss tempty (map Some h) = h.
+Proof. exact rerun_getattr. Qed.
+Print Assumptions C06_rerun_getattr.
 
 (* non-vacuity *)
 Example C06_nonvacuous :
